@@ -30,7 +30,7 @@ Qed.
 Lemma read_columns_agree nr : forall seen, seen_agree nr seen -> read_columns nr seen <> OOB.
 Proof.
   induction seen as [|[io len] r IH]; intro A; simpl; [discriminate|].
-  inversion A as [|x l Hx Hr]; subst. simpl in Hx.
+  pose proof (Forall_inv A) as Hx. pose proof (Forall_inv_tail A) as Hr. simpl in Hx.
   apply bind_not_OOB; [|intros _ _; apply IH; exact Hr].
   apply read_prefix_not_OOB; [lia|]. unfold zlen, alloc. rewrite repeat_length.
   unfold rows_of in Hx. destruct io; lia.
@@ -75,9 +75,8 @@ Theorem guard_implies_in_bounds_relatedness_weighted_repaired nw idx :
   0 <= nw -> relatedness_weighted_entry true nw idx <> OOB.
 Proof.
   intro H. unfold relatedness_weighted_entry. destruct (nw =? 0); [discriminate|]. simpl.
-  destruct (check_set_indexes nw idx) eqn:E; simpl; [|discriminate].
-  apply check_set_indexes_forall in E.
-  assert (Forall (fun u => 0 <= u < nw + 1) idx) as F by (eapply Forall_impl; [|exact E]; simpl; intros; lia).
+  destruct (check_set_indexes (nw + 1) idx) eqn:E; simpl; [|discriminate].
+  apply check_set_indexes_forall in E. pose proof E as F.
   apply bind_not_OOB; [apply read_all_in_range with (nw + 1); [apply zlen_alloc; lia | exact F]|].
   intros _ _. apply read_all_in_range with (nw + 1); [apply zlen_alloc; lia | exact F].
 Qed.
@@ -103,5 +102,7 @@ Example ex_columns_rejected :
 Proof. reflexivity. Qed.
 Example ex_weighted_ok : relatedness_weighted_entry true 2 [0; 1] = Ok tt.
 Proof. reflexivity. Qed.
-Example ex_weighted_rejected : relatedness_weighted_entry true 2 [0; 2] = Err E_LIBRARY.
+Example ex_weighted_ones_column : relatedness_weighted_entry true 2 [0; 2] = Ok tt.
+Proof. reflexivity. Qed.
+Example ex_weighted_rejected : relatedness_weighted_entry true 2 [0; 3] = Err E_LIBRARY.
 Proof. reflexivity. Qed.
